@@ -3,12 +3,12 @@ from sim.cancel_scenario import CancelScenario
 
 PROP = "C17"
 LEVEL = "fault_enumeration"
-RUNS = {"quick": 500, "thorough": 20000}
+RUNS = {"quick": 600, "thorough": 20000}
 BUDGET_S = {"quick": 50, "thorough": 840}
 CHUNK = 5
 RULE = ("One evaluation = one execution of `gwf cancel`. Scenarios (mixed never-submitted/pending/running/finished jobs; selection by patterns or all with prompt) are sampled; per scenario the cancel command is re-executed with the k-th scheduler cancel (scancel/qdel/bkill) failing with F1/F2 for every k. Oracle: ids the scheduler was asked to cancel are a subset of the selected targets' latest ids and include every live one, no id twice; uncancellable targets are reported; afterwards none of the cancelled targets shows submitted/running and the next run follows M_plan.")
 PROFILE = dict(
-    backends=["slurm", "slurm", "sge", "lsf"],
+    backends=["slurm", "slurm", "sge", "lsf", "local"],
     sizes=[1, 2, 3, 4, 5, 6, 8],
     lengths=[2, 4, 6, 10],
     weights=dict(run=3, start=2.5, finish=2, sched_cancel=0.3, purge=0.5, acct_flush=0.3, modify_source=0.3,
